@@ -112,6 +112,7 @@ type G struct {
 	settle  bool
 	opSite  string
 	prio    int64
+	locks   int // simulated mutexes currently held
 	enabled []int // cached: enabled case indexes (valid while registered and not dirty)
 	registered bool // its pending cases are in the scheduler's channel indexes
 	needEval   bool
@@ -168,6 +169,7 @@ type Sim struct {
 	live      []*G                     // not yet exited, in id order
 	justRan   []*G                     // released in the last step (the only ones that can have parked anew)
 	sinceFull int
+	touches   map[touchKey][]touchRec
 	probeHit  bool // a probe discovered an untracked close during this evaluation
 	verify    bool
 
